@@ -55,6 +55,30 @@ def check_pack_literals(maxlen):
     return cases, failures, samples
 
 
+def check_convert_interval():
+    """C13 / C08: an interval given as a pandas time string means that many seconds (whatever its size), numbers pass through"""
+    import pandas as pd
+    from streamz.core import convert_interval
+    cases, failures = 0, []
+    strings = ['1ms', '10ms', '250ms', '1s', '1.5s', '90s', '2min', '90min', '1h', '23h', '24h', '25h', '36h', '1D', '2D', '7D',
+               '1D 2h', '2 days 00:00:30']
+    for txt in strings:
+        cases += 1
+        want = pd.Timedelta(txt).total_seconds()
+        try:
+            got = convert_interval(txt)
+        except Exception as e:
+            got = 'raised %s: %s' % (type(e).__name__, e)
+        if not (isinstance(got, (int, float)) and abs(got - want) < 1e-9):
+            failures.append({'op': 'convert_interval', 'interval': txt, 'got': repr(got), 'expected_seconds': want})
+    for num in (0, 0.05, 1, 3, 86400, 129600.5):
+        cases += 1
+        got = convert_interval(num)
+        if got != num:
+            failures.append({'op': 'convert_interval', 'interval': num, 'got': repr(got), 'expected_seconds': num})
+    return cases, failures[:3], [{'interval': '36h'}, {'interval': 0.05}]
+
+
 def main():
     pid, tier = sys.argv[1], sys.argv[2]
     repo = sys.argv[4] if len(sys.argv) > 4 else '/repo'
@@ -65,6 +89,10 @@ def main():
         c, f, s = check_pack_literals(n)
         out.update({'cases': c, 'distinct': c, 'failures': f, 'samples': s, 'ops': ['zip.pack_literals', 'zip with literals (end to end)'],
                     'space': 'every arrangement of stream / literal arguments of zip with total length <= %d' % n})
+    if pid in ('C13', 'C08'):
+        c, f, smp = check_convert_interval()
+        out.update({'cases': c, 'distinct': c, 'failures': f, 'samples': smp, 'ops': ['convert_interval'],
+                    'space': 'a fixed list of 18 pandas time strings from 1ms to 7 days (incl. >= 24h) and 6 numbers'})
     json.dump(out, sys.stdout)
 
 
